@@ -89,8 +89,8 @@ func ptrTo[T any](v T) *T { return &v }
 // versions on either side - and allowed otherwise; other operations are
 // rejected as bad requests.
 //
-//gosym:harness
-//gosym:cover refused allowed other-version non-delete earlier-attempt-other-policy
+//gosym:harness panics
+//gosym:cover refused allowed other-version non-delete earlier-attempt-other-policy by-unresolved-selector
 func HarnessC19Webhook() {
 	s, h := zzSetupStore()
 
@@ -121,7 +121,19 @@ func HarnessC19Webhook() {
 		zz.Assume(of.kind != "")
 		zz.Assume(of.name != "")
 		ofs = append(ofs, of)
-		s.Put(zzUsage("usage-"+string(rune('a'+i)), of))
+		us := zzUsage("usage-"+string(rune('a'+i)), of)
+		// the Usage gives a reason, names its using resource, or selects it
+		// by labels (and the selector is not resolved yet, or matches nothing)
+		switch zz.Choose("usage"+string(rune('0'+i))+".form", 3) {
+		case 1:
+			us.Spec.Reason = nil
+			us.Spec.By = &v1beta1.Resource{APIVersion: "example.org/v1", Kind: "Using", ResourceRef: &v1beta1.ResourceRef{Name: "using-1"}}
+		case 2:
+			us.Spec.Reason = nil
+			us.Spec.By = &v1beta1.Resource{APIVersion: "example.org/v1", Kind: "Using", ResourceSelector: &v1beta1.ResourceSelector{MatchLabels: map[string]string{"app": "x"}}}
+			zz.Cover("by-unresolved-selector")
+		}
+		s.Put(us)
 	}
 
 	op := []admissionv1.Operation{admissionv1.Delete, admissionv1.Create, admissionv1.Update, admissionv1.Connect}[zz.Choose("operation", 4)]
